@@ -121,6 +121,8 @@ def build_unit(sidecar_path, sources, variant=None):
         rules.append("R4")
     if "R44" not in rules:
         rules.append("R44")
+    if "R45" not in rules:
+        rules.append("R45")
     default_src = sc.get("source", "expanded")
     if sc.get("compose"):
         for f in sc.get("fn", []) + sc.get("arm", []) + sc.get("closure_fn", []):
@@ -189,7 +191,7 @@ def build_unit(sidecar_path, sources, variant=None):
             vnames.append(f"{u.name}::{name}")
         body = f"// ---- extracted fn {f['path']} from {src.label} bytes {item['range']}  obligation {ob}\n" + ex["text"]
         body = no_loop_isolation(body, f, sc)
-        ch = Chunk("fn:" + f["path"], body, ob=(None if decl else ob), kind=("decl" if decl else "fn"), meta={"hash": ex["hash"], "raw": ex["raw"], "vnames": vnames, "spec": f, "trait_impl": bool(enc is not None and " as " in enc["path"])})
+        ch = Chunk("fn:" + f["path"], body, ob=(None if decl else ob), kind=("decl" if decl else "fn"), meta={"hash": ex["hash"], "raw": ex["raw"], "vnames": vnames, "spec": f, "unannotated": ex.get("unannotated", []), "trait_impl": bool(enc is not None and " as " in enc["path"])})
         if not decl:
             u.functions_under_contract.append(f["path"])
         if key is None:
@@ -220,7 +222,7 @@ def build_unit(sidecar_path, sources, variant=None):
         tyname = a.get("impl_type")
         vn = f"{u.name}::{tyname}::{a['name']}" if tyname else f"{u.name}::{a['name']}"
         body = no_loop_isolation(body, a, sc)
-        ch = Chunk("closure:" + a["name"], body, ob=ob, kind="fn", meta={"hash": ex["hash"], "raw": ex["raw"], "vnames": [vn], "spec": dict(a, path=a["path"] + " closure #" + str(a.get("n", 0))), "trait_impl": False})
+        ch = Chunk("closure:" + a["name"], body, ob=ob, kind="fn", meta={"hash": ex["hash"], "raw": ex["raw"], "vnames": [vn], "spec": dict(a, path=a["path"] + " closure #" + str(a.get("n", 0))), "unannotated": ex.get("unannotated", []), "trait_impl": False})
         u.functions_under_contract.append(a["path"] + " :: closure #" + str(a.get("n", 0)))
         u.fns.append(ch)
         if a.get("impl_header"):
@@ -243,7 +245,7 @@ def build_unit(sidecar_path, sources, variant=None):
         tyname = a.get("impl_type")
         vn = f"{u.name}::{tyname}::{a['name']}" if tyname else f"{u.name}::{a['name']}"
         body = no_loop_isolation(body, a, sc)
-        ch = Chunk("arm:" + a["name"], body, ob=ob, kind="fn", meta={"hash": ex["hash"], "raw": ex["raw"], "vnames": [vn], "spec": dict(a, path=a["path"] + " arm " + a["arm"]), "trait_impl": False})
+        ch = Chunk("arm:" + a["name"], body, ob=ob, kind="fn", meta={"hash": ex["hash"], "raw": ex["raw"], "vnames": [vn], "spec": dict(a, path=a["path"] + " arm " + a["arm"]), "unannotated": ex.get("unannotated", []), "trait_impl": False})
         u.functions_under_contract.append(a["path"] + " :: arm " + a["arm"])
         u.fns.append(ch)
         if hdr:
